@@ -76,6 +76,7 @@ theorem upd_ne {β : Type} (f : Nat → β) {a x : Nat} (b : β) (h : x ≠ a) :
 @[simp] theorem setPc_published (s : State) (t : Tid) (p : PC) : (s.setPc t p).published = s.published := rfl
 @[simp] theorem setPc_notifyCalled (s : State) (t : Tid) (p : PC) : (s.setPc t p).notifyCalled = s.notifyCalled := rfl
 @[simp] theorem setPc_ownDl (s : State) (t : Tid) (p : PC) : (s.setPc t p).ownDl = s.ownDl := rfl
+@[simp] theorem setPc_cparent (s : State) (t : Tid) (p : PC) : (s.setPc t p).cparent = s.cparent := rfl
 @[simp] theorem setPc_ancEver (s : State) (t : Tid) (p : PC) : (s.setPc t p).ancEver = s.ancEver := rfl
 @[simp] theorem setPc_pathMin (s : State) (t : Tid) (p : PC) : (s.setPc t p).pathMin = s.pathMin := rfl
 @[simp] theorem setPc_bornNotified (s : State) (t : Tid) (p : PC) : (s.setPc t p).bornNotified = s.bornNotified := rfl
@@ -91,6 +92,7 @@ theorem upd_ne {β : Type} (f : Nat → β) {a x : Nat} (b : β) (h : x ≠ a) :
 @[simp] theorem modNote_published (s : State) (k : NoteId) (f : NoteRec → NoteRec) : (s.modNote k f).published = s.published := rfl
 @[simp] theorem modNote_notifyCalled (s : State) (k : NoteId) (f : NoteRec → NoteRec) : (s.modNote k f).notifyCalled = s.notifyCalled := rfl
 @[simp] theorem modNote_ownDl (s : State) (k : NoteId) (f : NoteRec → NoteRec) : (s.modNote k f).ownDl = s.ownDl := rfl
+@[simp] theorem modNote_cparent (s : State) (k : NoteId) (f : NoteRec → NoteRec) : (s.modNote k f).cparent = s.cparent := rfl
 @[simp] theorem modNote_ancEver (s : State) (k : NoteId) (f : NoteRec → NoteRec) : (s.modNote k f).ancEver = s.ancEver := rfl
 @[simp] theorem modNote_pathMin (s : State) (k : NoteId) (f : NoteRec → NoteRec) : (s.modNote k f).pathMin = s.pathMin := rfl
 @[simp] theorem modNote_bornNotified (s : State) (k : NoteId) (f : NoteRec → NoteRec) : (s.modNote k f).bornNotified = s.bornNotified := rfl
@@ -106,6 +108,7 @@ theorem upd_ne {β : Type} (f : Nat → β) {a x : Nat} (b : β) (h : x ≠ a) :
 @[simp] theorem modRec_published (s : State) (r : Rid) (f : WRec → WRec) : (s.modRec r f).published = s.published := rfl
 @[simp] theorem modRec_notifyCalled (s : State) (r : Rid) (f : WRec → WRec) : (s.modRec r f).notifyCalled = s.notifyCalled := rfl
 @[simp] theorem modRec_ownDl (s : State) (r : Rid) (f : WRec → WRec) : (s.modRec r f).ownDl = s.ownDl := rfl
+@[simp] theorem modRec_cparent (s : State) (r : Rid) (f : WRec → WRec) : (s.modRec r f).cparent = s.cparent := rfl
 @[simp] theorem modRec_ancEver (s : State) (r : Rid) (f : WRec → WRec) : (s.modRec r f).ancEver = s.ancEver := rfl
 @[simp] theorem modRec_pathMin (s : State) (r : Rid) (f : WRec → WRec) : (s.modRec r f).pathMin = s.pathMin := rfl
 @[simp] theorem modRec_bornNotified (s : State) (r : Rid) (f : WRec → WRec) : (s.modRec r f).bornNotified = s.bornNotified := rfl
@@ -121,6 +124,7 @@ theorem upd_ne {β : Type} (f : Nat → β) {a x : Nat} (b : β) (h : x ≠ a) :
 @[simp] theorem addUser_published (s : State) (n : NoteId) (t : Tid) : (s.addUser n t).published = s.published := rfl
 @[simp] theorem addUser_notifyCalled (s : State) (n : NoteId) (t : Tid) : (s.addUser n t).notifyCalled = s.notifyCalled := rfl
 @[simp] theorem addUser_ownDl (s : State) (n : NoteId) (t : Tid) : (s.addUser n t).ownDl = s.ownDl := rfl
+@[simp] theorem addUser_cparent (s : State) (n : NoteId) (t : Tid) : (s.addUser n t).cparent = s.cparent := rfl
 @[simp] theorem addUser_ancEver (s : State) (n : NoteId) (t : Tid) : (s.addUser n t).ancEver = s.ancEver := rfl
 @[simp] theorem addUser_pathMin (s : State) (n : NoteId) (t : Tid) : (s.addUser n t).pathMin = s.pathMin := rfl
 @[simp] theorem addUser_bornNotified (s : State) (n : NoteId) (t : Tid) : (s.addUser n t).bornNotified = s.bornNotified := rfl
@@ -136,6 +140,7 @@ theorem upd_ne {β : Type} (f : Nat → β) {a x : Nat} (b : β) (h : x ≠ a) :
 @[simp] theorem delUser_published (s : State) (n : NoteId) (t : Tid) : (s.delUser n t).published = s.published := rfl
 @[simp] theorem delUser_notifyCalled (s : State) (n : NoteId) (t : Tid) : (s.delUser n t).notifyCalled = s.notifyCalled := rfl
 @[simp] theorem delUser_ownDl (s : State) (n : NoteId) (t : Tid) : (s.delUser n t).ownDl = s.ownDl := rfl
+@[simp] theorem delUser_cparent (s : State) (n : NoteId) (t : Tid) : (s.delUser n t).cparent = s.cparent := rfl
 @[simp] theorem delUser_ancEver (s : State) (n : NoteId) (t : Tid) : (s.delUser n t).ancEver = s.ancEver := rfl
 @[simp] theorem delUser_pathMin (s : State) (n : NoteId) (t : Tid) : (s.delUser n t).pathMin = s.pathMin := rfl
 @[simp] theorem delUser_bornNotified (s : State) (n : NoteId) (t : Tid) : (s.delUser n t).bornNotified = s.bornNotified := rfl
@@ -151,6 +156,7 @@ theorem upd_ne {β : Type} (f : Nat → β) {a x : Nat} (b : β) (h : x ≠ a) :
 @[simp] theorem markFreeing_published (s : State) (n : NoteId) : (s.markFreeing n).published = s.published := rfl
 @[simp] theorem markFreeing_notifyCalled (s : State) (n : NoteId) : (s.markFreeing n).notifyCalled = s.notifyCalled := rfl
 @[simp] theorem markFreeing_ownDl (s : State) (n : NoteId) : (s.markFreeing n).ownDl = s.ownDl := rfl
+@[simp] theorem markFreeing_cparent (s : State) (n : NoteId) : (s.markFreeing n).cparent = s.cparent := rfl
 @[simp] theorem markFreeing_ancEver (s : State) (n : NoteId) : (s.markFreeing n).ancEver = s.ancEver := rfl
 @[simp] theorem markFreeing_pathMin (s : State) (n : NoteId) : (s.markFreeing n).pathMin = s.pathMin := rfl
 @[simp] theorem markFreeing_bornNotified (s : State) (n : NoteId) : (s.markFreeing n).bornNotified = s.bornNotified := rfl
@@ -166,6 +172,7 @@ theorem upd_ne {β : Type} (f : Nat → β) {a x : Nat} (b : β) (h : x ≠ a) :
 @[simp] theorem markCalled_notifyCalled (s : State) (n : NoteId) :
     (s.markCalled n).notifyCalled = upd s.notifyCalled n true := rfl
 @[simp] theorem markCalled_ownDl (s : State) (n : NoteId) : (s.markCalled n).ownDl = s.ownDl := rfl
+@[simp] theorem markCalled_cparent (s : State) (n : NoteId) : (s.markCalled n).cparent = s.cparent := rfl
 @[simp] theorem markCalled_ancEver (s : State) (n : NoteId) : (s.markCalled n).ancEver = s.ancEver := rfl
 @[simp] theorem markCalled_pathMin (s : State) (n : NoteId) : (s.markCalled n).pathMin = s.pathMin := rfl
 @[simp] theorem markCalled_bornNotified (s : State) (n : NoteId) : (s.markCalled n).bornNotified = s.bornNotified := rfl
@@ -180,6 +187,7 @@ theorem upd_ne {β : Type} (f : Nat → β) {a x : Nat} (b : β) (h : x ≠ a) :
 @[simp] theorem markBorn_published (s : State) (n : NoteId) : (s.markBorn n).published = s.published := rfl
 @[simp] theorem markBorn_notifyCalled (s : State) (n : NoteId) : (s.markBorn n).notifyCalled = s.notifyCalled := rfl
 @[simp] theorem markBorn_ownDl (s : State) (n : NoteId) : (s.markBorn n).ownDl = s.ownDl := rfl
+@[simp] theorem markBorn_cparent (s : State) (n : NoteId) : (s.markBorn n).cparent = s.cparent := rfl
 @[simp] theorem markBorn_ancEver (s : State) (n : NoteId) : (s.markBorn n).ancEver = s.ancEver := rfl
 @[simp] theorem markBorn_pathMin (s : State) (n : NoteId) : (s.markBorn n).pathMin = s.pathMin := rfl
 @[simp] theorem markBorn_bornNotified (s : State) (n : NoteId) :
@@ -196,6 +204,7 @@ theorem upd_ne {β : Type} (f : Nat → β) {a x : Nat} (b : β) (h : x ≠ a) :
     (s.publish n).published = upd s.published n true := rfl
 @[simp] theorem publish_notifyCalled (s : State) (n : NoteId) : (s.publish n).notifyCalled = s.notifyCalled := rfl
 @[simp] theorem publish_ownDl (s : State) (n : NoteId) : (s.publish n).ownDl = s.ownDl := rfl
+@[simp] theorem publish_cparent (s : State) (n : NoteId) : (s.publish n).cparent = s.cparent := rfl
 @[simp] theorem publish_ancEver (s : State) (n : NoteId) : (s.publish n).ancEver = s.ancEver := rfl
 @[simp] theorem publish_pathMin (s : State) (n : NoteId) : (s.publish n).pathMin = s.pathMin := rfl
 @[simp] theorem publish_bornNotified (s : State) (n : NoteId) : (s.publish n).bornNotified = s.bornNotified := rfl
@@ -210,6 +219,7 @@ theorem upd_ne {β : Type} (f : Nat → β) {a x : Nat} (b : β) (h : x ≠ a) :
 @[simp] theorem setAfter_published (s : State) (t : Tid) (b : Bool) : (s.setAfter t b).published = s.published := rfl
 @[simp] theorem setAfter_notifyCalled (s : State) (t : Tid) (b : Bool) : (s.setAfter t b).notifyCalled = s.notifyCalled := rfl
 @[simp] theorem setAfter_ownDl (s : State) (t : Tid) (b : Bool) : (s.setAfter t b).ownDl = s.ownDl := rfl
+@[simp] theorem setAfter_cparent (s : State) (t : Tid) (b : Bool) : (s.setAfter t b).cparent = s.cparent := rfl
 @[simp] theorem setAfter_ancEver (s : State) (t : Tid) (b : Bool) : (s.setAfter t b).ancEver = s.ancEver := rfl
 @[simp] theorem setAfter_pathMin (s : State) (t : Tid) (b : Bool) : (s.setAfter t b).pathMin = s.pathMin := rfl
 @[simp] theorem setAfter_bornNotified (s : State) (t : Tid) (b : Bool) : (s.setAfter t b).bornNotified = s.bornNotified := rfl
@@ -225,6 +235,7 @@ theorem upd_ne {β : Type} (f : Nat → β) {a x : Nat} (b : β) (h : x ≠ a) :
 @[simp] theorem pushObs_published (s : State) (o : Obs) : (s.pushObs o).published = s.published := rfl
 @[simp] theorem pushObs_notifyCalled (s : State) (o : Obs) : (s.pushObs o).notifyCalled = s.notifyCalled := rfl
 @[simp] theorem pushObs_ownDl (s : State) (o : Obs) : (s.pushObs o).ownDl = s.ownDl := rfl
+@[simp] theorem pushObs_cparent (s : State) (o : Obs) : (s.pushObs o).cparent = s.cparent := rfl
 @[simp] theorem pushObs_ancEver (s : State) (o : Obs) : (s.pushObs o).ancEver = s.ancEver := rfl
 @[simp] theorem pushObs_pathMin (s : State) (o : Obs) : (s.pushObs o).pathMin = s.pathMin := rfl
 @[simp] theorem pushObs_bornNotified (s : State) (o : Obs) : (s.pushObs o).bornNotified = s.bornNotified := rfl
@@ -241,6 +252,7 @@ theorem upd_ne {β : Type} (f : Nat → β) {a x : Nat} (b : β) (h : x ≠ a) :
 @[simp] theorem setNow_published (s : State) (v : Nat) : (s.setNow v).published = s.published := rfl
 @[simp] theorem setNow_notifyCalled (s : State) (v : Nat) : (s.setNow v).notifyCalled = s.notifyCalled := rfl
 @[simp] theorem setNow_ownDl (s : State) (v : Nat) : (s.setNow v).ownDl = s.ownDl := rfl
+@[simp] theorem setNow_cparent (s : State) (v : Nat) : (s.setNow v).cparent = s.cparent := rfl
 @[simp] theorem setNow_ancEver (s : State) (v : Nat) : (s.setNow v).ancEver = s.ancEver := rfl
 @[simp] theorem setNow_pathMin (s : State) (v : Nat) : (s.setNow v).pathMin = s.pathMin := rfl
 @[simp] theorem setNow_bornNotified (s : State) (v : Nat) : (s.setNow v).bornNotified = s.bornNotified := rfl
@@ -257,6 +269,8 @@ theorem upd_ne {β : Type} (f : Nat → β) {a x : Nat} (b : β) (h : x ≠ a) :
 @[simp] theorem allocNote_notifyCalled (s : State) (k : NoteId) (par : Option NoteId) (dl : Dl) : (s.allocNote k par dl).notifyCalled = s.notifyCalled := rfl
 @[simp] theorem allocNote_ownDl (s : State) (k : NoteId) (par : Option NoteId) (dl : Dl) :
     (s.allocNote k par dl).ownDl = upd s.ownDl k dl := rfl
+@[simp] theorem allocNote_cparent (s : State) (k : NoteId) (par : Option NoteId) (dl : Dl) :
+    (s.allocNote k par dl).cparent = upd s.cparent k par := rfl
 @[simp] theorem allocNote_ancEver (s : State) (k : NoteId) (par : Option NoteId) (dl : Dl) :
     (s.allocNote k par dl).ancEver = upd s.ancEver k (k :: s.ancOf par) := rfl
 @[simp] theorem allocNote_pathMin (s : State) (k : NoteId) (par : Option NoteId) (dl : Dl) :
@@ -275,6 +289,7 @@ theorem upd_ne {β : Type} (f : Nat → β) {a x : Nat} (b : β) (h : x ≠ a) :
 @[simp] theorem acquire_published (s : State) (k : NoteId) (t : Tid) : (s.acquire k t).published = s.published := rfl
 @[simp] theorem acquire_notifyCalled (s : State) (k : NoteId) (t : Tid) : (s.acquire k t).notifyCalled = s.notifyCalled := rfl
 @[simp] theorem acquire_ownDl (s : State) (k : NoteId) (t : Tid) : (s.acquire k t).ownDl = s.ownDl := rfl
+@[simp] theorem acquire_cparent (s : State) (k : NoteId) (t : Tid) : (s.acquire k t).cparent = s.cparent := rfl
 @[simp] theorem acquire_ancEver (s : State) (k : NoteId) (t : Tid) : (s.acquire k t).ancEver = s.ancEver := rfl
 @[simp] theorem acquire_pathMin (s : State) (k : NoteId) (t : Tid) : (s.acquire k t).pathMin = s.pathMin := rfl
 @[simp] theorem acquire_bornNotified (s : State) (k : NoteId) (t : Tid) : (s.acquire k t).bornNotified = s.bornNotified := rfl
@@ -315,6 +330,7 @@ theorem upd_ne {β : Type} (f : Nat → β) {a x : Nat} (b : β) (h : x ≠ a) :
 @[simp] theorem release_published (s : State) (k : NoteId) : (s.release k).published = s.published := rfl
 @[simp] theorem release_notifyCalled (s : State) (k : NoteId) : (s.release k).notifyCalled = s.notifyCalled := rfl
 @[simp] theorem release_ownDl (s : State) (k : NoteId) : (s.release k).ownDl = s.ownDl := rfl
+@[simp] theorem release_cparent (s : State) (k : NoteId) : (s.release k).cparent = s.cparent := rfl
 @[simp] theorem release_ancEver (s : State) (k : NoteId) : (s.release k).ancEver = s.ancEver := rfl
 @[simp] theorem release_pathMin (s : State) (k : NoteId) : (s.release k).pathMin = s.pathMin := rfl
 @[simp] theorem release_bornNotified (s : State) (k : NoteId) : (s.release k).bornNotified = s.bornNotified := rfl
@@ -355,6 +371,7 @@ theorem upd_ne {β : Type} (f : Nat → β) {a x : Nat} (b : β) (h : x ≠ a) :
 @[simp] theorem incDisc_published (s : State) (k : NoteId) : (s.incDisc k).published = s.published := rfl
 @[simp] theorem incDisc_notifyCalled (s : State) (k : NoteId) : (s.incDisc k).notifyCalled = s.notifyCalled := rfl
 @[simp] theorem incDisc_ownDl (s : State) (k : NoteId) : (s.incDisc k).ownDl = s.ownDl := rfl
+@[simp] theorem incDisc_cparent (s : State) (k : NoteId) : (s.incDisc k).cparent = s.cparent := rfl
 @[simp] theorem incDisc_ancEver (s : State) (k : NoteId) : (s.incDisc k).ancEver = s.ancEver := rfl
 @[simp] theorem incDisc_pathMin (s : State) (k : NoteId) : (s.incDisc k).pathMin = s.pathMin := rfl
 @[simp] theorem incDisc_bornNotified (s : State) (k : NoteId) : (s.incDisc k).bornNotified = s.bornNotified := rfl
@@ -395,6 +412,7 @@ theorem upd_ne {β : Type} (f : Nat → β) {a x : Nat} (b : β) (h : x ≠ a) :
 @[simp] theorem decDisc_published (s : State) (k : NoteId) : (s.decDisc k).published = s.published := rfl
 @[simp] theorem decDisc_notifyCalled (s : State) (k : NoteId) : (s.decDisc k).notifyCalled = s.notifyCalled := rfl
 @[simp] theorem decDisc_ownDl (s : State) (k : NoteId) : (s.decDisc k).ownDl = s.ownDl := rfl
+@[simp] theorem decDisc_cparent (s : State) (k : NoteId) : (s.decDisc k).cparent = s.cparent := rfl
 @[simp] theorem decDisc_ancEver (s : State) (k : NoteId) : (s.decDisc k).ancEver = s.ancEver := rfl
 @[simp] theorem decDisc_pathMin (s : State) (k : NoteId) : (s.decDisc k).pathMin = s.pathMin := rfl
 @[simp] theorem decDisc_bornNotified (s : State) (k : NoteId) : (s.decDisc k).bornNotified = s.bornNotified := rfl
@@ -435,6 +453,7 @@ theorem upd_ne {β : Type} (f : Nat → β) {a x : Nat} (b : β) (h : x ≠ a) :
 @[simp] theorem setWaiters_published (s : State) (k : NoteId) (ws : List Rid) : (s.setWaiters k ws).published = s.published := rfl
 @[simp] theorem setWaiters_notifyCalled (s : State) (k : NoteId) (ws : List Rid) : (s.setWaiters k ws).notifyCalled = s.notifyCalled := rfl
 @[simp] theorem setWaiters_ownDl (s : State) (k : NoteId) (ws : List Rid) : (s.setWaiters k ws).ownDl = s.ownDl := rfl
+@[simp] theorem setWaiters_cparent (s : State) (k : NoteId) (ws : List Rid) : (s.setWaiters k ws).cparent = s.cparent := rfl
 @[simp] theorem setWaiters_ancEver (s : State) (k : NoteId) (ws : List Rid) : (s.setWaiters k ws).ancEver = s.ancEver := rfl
 @[simp] theorem setWaiters_pathMin (s : State) (k : NoteId) (ws : List Rid) : (s.setWaiters k ws).pathMin = s.pathMin := rfl
 @[simp] theorem setWaiters_bornNotified (s : State) (k : NoteId) (ws : List Rid) : (s.setWaiters k ws).bornNotified = s.bornNotified := rfl
@@ -475,6 +494,7 @@ theorem upd_ne {β : Type} (f : Nat → β) {a x : Nat} (b : β) (h : x ≠ a) :
 @[simp] theorem setExpiry_published (s : State) (k : NoteId) (d : Dl) : (s.setExpiry k d).published = s.published := rfl
 @[simp] theorem setExpiry_notifyCalled (s : State) (k : NoteId) (d : Dl) : (s.setExpiry k d).notifyCalled = s.notifyCalled := rfl
 @[simp] theorem setExpiry_ownDl (s : State) (k : NoteId) (d : Dl) : (s.setExpiry k d).ownDl = s.ownDl := rfl
+@[simp] theorem setExpiry_cparent (s : State) (k : NoteId) (d : Dl) : (s.setExpiry k d).cparent = s.cparent := rfl
 @[simp] theorem setExpiry_ancEver (s : State) (k : NoteId) (d : Dl) : (s.setExpiry k d).ancEver = s.ancEver := rfl
 @[simp] theorem setExpiry_pathMin (s : State) (k : NoteId) (d : Dl) : (s.setExpiry k d).pathMin = s.pathMin := rfl
 @[simp] theorem setExpiry_bornNotified (s : State) (k : NoteId) (d : Dl) : (s.setExpiry k d).bornNotified = s.bornNotified := rfl
@@ -515,6 +535,7 @@ theorem upd_ne {β : Type} (f : Nat → β) {a x : Nat} (b : β) (h : x ≠ a) :
 @[simp] theorem setNotified_published (s : State) (k : NoteId) : (s.setNotified k).published = s.published := rfl
 @[simp] theorem setNotified_notifyCalled (s : State) (k : NoteId) : (s.setNotified k).notifyCalled = s.notifyCalled := rfl
 @[simp] theorem setNotified_ownDl (s : State) (k : NoteId) : (s.setNotified k).ownDl = s.ownDl := rfl
+@[simp] theorem setNotified_cparent (s : State) (k : NoteId) : (s.setNotified k).cparent = s.cparent := rfl
 @[simp] theorem setNotified_ancEver (s : State) (k : NoteId) : (s.setNotified k).ancEver = s.ancEver := rfl
 @[simp] theorem setNotified_pathMin (s : State) (k : NoteId) : (s.setNotified k).pathMin = s.pathMin := rfl
 @[simp] theorem setNotified_bornNotified (s : State) (k : NoteId) : (s.setNotified k).bornNotified = s.bornNotified := rfl
@@ -555,6 +576,7 @@ theorem upd_ne {β : Type} (f : Nat → β) {a x : Nat} (b : β) (h : x ≠ a) :
 @[simp] theorem markFreed_published (s : State) (k : NoteId) : (s.markFreed k).published = s.published := rfl
 @[simp] theorem markFreed_notifyCalled (s : State) (k : NoteId) : (s.markFreed k).notifyCalled = s.notifyCalled := rfl
 @[simp] theorem markFreed_ownDl (s : State) (k : NoteId) : (s.markFreed k).ownDl = s.ownDl := rfl
+@[simp] theorem markFreed_cparent (s : State) (k : NoteId) : (s.markFreed k).cparent = s.cparent := rfl
 @[simp] theorem markFreed_ancEver (s : State) (k : NoteId) : (s.markFreed k).ancEver = s.ancEver := rfl
 @[simp] theorem markFreed_pathMin (s : State) (k : NoteId) : (s.markFreed k).pathMin = s.pathMin := rfl
 @[simp] theorem markFreed_bornNotified (s : State) (k : NoteId) : (s.markFreed k).bornNotified = s.bornNotified := rfl
@@ -595,6 +617,7 @@ theorem upd_ne {β : Type} (f : Nat → β) {a x : Nat} (b : β) (h : x ≠ a) :
 @[simp] theorem eraseChild_published (s : State) (n c : NoteId) : (s.eraseChild n c).published = s.published := rfl
 @[simp] theorem eraseChild_notifyCalled (s : State) (n c : NoteId) : (s.eraseChild n c).notifyCalled = s.notifyCalled := rfl
 @[simp] theorem eraseChild_ownDl (s : State) (n c : NoteId) : (s.eraseChild n c).ownDl = s.ownDl := rfl
+@[simp] theorem eraseChild_cparent (s : State) (n c : NoteId) : (s.eraseChild n c).cparent = s.cparent := rfl
 @[simp] theorem eraseChild_ancEver (s : State) (n c : NoteId) : (s.eraseChild n c).ancEver = s.ancEver := rfl
 @[simp] theorem eraseChild_pathMin (s : State) (n c : NoteId) : (s.eraseChild n c).pathMin = s.pathMin := rfl
 @[simp] theorem eraseChild_bornNotified (s : State) (n c : NoteId) : (s.eraseChild n c).bornNotified = s.bornNotified := rfl
@@ -635,6 +658,7 @@ theorem upd_ne {β : Type} (f : Nat → β) {a x : Nat} (b : β) (h : x ≠ a) :
 @[simp] theorem clearParent_published (s : State) (c : NoteId) : (s.clearParent c).published = s.published := rfl
 @[simp] theorem clearParent_notifyCalled (s : State) (c : NoteId) : (s.clearParent c).notifyCalled = s.notifyCalled := rfl
 @[simp] theorem clearParent_ownDl (s : State) (c : NoteId) : (s.clearParent c).ownDl = s.ownDl := rfl
+@[simp] theorem clearParent_cparent (s : State) (c : NoteId) : (s.clearParent c).cparent = s.cparent := rfl
 @[simp] theorem clearParent_ancEver (s : State) (c : NoteId) : (s.clearParent c).ancEver = s.ancEver := rfl
 @[simp] theorem clearParent_pathMin (s : State) (c : NoteId) : (s.clearParent c).pathMin = s.pathMin := rfl
 @[simp] theorem clearParent_bornNotified (s : State) (c : NoteId) : (s.clearParent c).bornNotified = s.bornNotified := rfl
@@ -675,6 +699,7 @@ theorem upd_ne {β : Type} (f : Nat → β) {a x : Nat} (b : β) (h : x ≠ a) :
 @[simp] theorem link_published (s : State) (c p : NoteId) : (s.link c p).published = s.published := rfl
 @[simp] theorem link_notifyCalled (s : State) (c p : NoteId) : (s.link c p).notifyCalled = s.notifyCalled := rfl
 @[simp] theorem link_ownDl (s : State) (c p : NoteId) : (s.link c p).ownDl = s.ownDl := rfl
+@[simp] theorem link_cparent (s : State) (c p : NoteId) : (s.link c p).cparent = s.cparent := rfl
 @[simp] theorem link_ancEver (s : State) (c p : NoteId) : (s.link c p).ancEver = s.ancEver := rfl
 @[simp] theorem link_pathMin (s : State) (c p : NoteId) : (s.link c p).pathMin = s.pathMin := rfl
 @[simp] theorem link_bornNotified (s : State) (c p : NoteId) : (s.link c p).bornNotified = s.bornNotified := rfl
@@ -715,6 +740,7 @@ theorem upd_ne {β : Type} (f : Nat → β) {a x : Nat} (b : β) (h : x ≠ a) :
 @[simp] theorem unlink_published (s : State) (c p : NoteId) : (s.unlink c p).published = s.published := rfl
 @[simp] theorem unlink_notifyCalled (s : State) (c p : NoteId) : (s.unlink c p).notifyCalled = s.notifyCalled := rfl
 @[simp] theorem unlink_ownDl (s : State) (c p : NoteId) : (s.unlink c p).ownDl = s.ownDl := rfl
+@[simp] theorem unlink_cparent (s : State) (c p : NoteId) : (s.unlink c p).cparent = s.cparent := rfl
 @[simp] theorem unlink_ancEver (s : State) (c p : NoteId) : (s.unlink c p).ancEver = s.ancEver := rfl
 @[simp] theorem unlink_pathMin (s : State) (c p : NoteId) : (s.unlink c p).pathMin = s.pathMin := rfl
 @[simp] theorem unlink_bornNotified (s : State) (c p : NoteId) : (s.unlink c p).bornNotified = s.bornNotified := rfl
@@ -754,36 +780,154 @@ theorem upd_ne {β : Type} (f : Nat → β) {a x : Nat} (b : β) (h : x ≠ a) :
 
 /-! ### The control transfers, field by field -/
 
-@[simp] theorem afterDeadline_notes (s : State) (t : Tid) (n : NoteId) (nt : Dl) (k : DK) : (afterDeadline s t n nt k).notes = s.notes := by
-  unfold afterDeadline; split <;> rfl
+/-- The value of `expiry` after `newExpiry`. -/
+def newExpiryVal (s : State) (n : NoteId) (k : DK) (j : NoteId) : Dl :=
+  match k with
+  | .newSelf (some p) dl => if j = n then Dl.min dl (s.notes p).expiry else (s.notes j).expiry
+  | _ => (s.notes j).expiry
+
+@[simp] theorem newExpiryVal_isNotified (s : State) (n j : NoteId) :
+    newExpiryVal s n .isNotified j = (s.notes j).expiry := rfl
+@[simp] theorem newExpiryVal_notifyApi (s : State) (n j : NoteId) :
+    newExpiryVal s n .notifyApi j = (s.notes j).expiry := rfl
+@[simp] theorem newExpiryVal_ready1 (s : State) (n j : NoteId) (d : Dl) :
+    newExpiryVal s n (.ready1 d) j = (s.notes j).expiry := rfl
+@[simp] theorem newExpiryVal_ready2 (s : State) (n j : NoteId) (r : Rid) (d : Dl) :
+    newExpiryVal s n (.ready2 r d) j = (s.notes j).expiry := rfl
+@[simp] theorem newExpiryVal_dequeue (s : State) (n j : NoteId) (r : Rid) (d : Dl) :
+    newExpiryVal s n (.dequeue r d) j = (s.notes j).expiry := rfl
+@[simp] theorem newExpiryVal_newSelf_none (s : State) (n j : NoteId) (d : Dl) :
+    newExpiryVal s n (.newSelf none d) j = (s.notes j).expiry := rfl
+@[simp] theorem newExpiryVal_newSelf_some (s : State) (n j p : NoteId) (d : Dl) :
+    newExpiryVal s n (.newSelf (some p) d) j =
+      if j = n then Dl.min d (s.notes p).expiry else (s.notes j).expiry := rfl
+theorem newExpiryVal_ne (s : State) {n j : NoteId} (k : DK) (h : j ≠ n) :
+    newExpiryVal s n k j = (s.notes j).expiry := by
+  unfold newExpiryVal; split <;> simp [h]
+
+@[simp] theorem newExpiry_recs (s : State) (n : NoteId) (k : DK) : (newExpiry s n k).recs = s.recs := by
+  unfold newExpiry; split <;> rfl
+@[simp] theorem newExpiry_now (s : State) (n : NoteId) (k : DK) : (newExpiry s n k).now = s.now := by
+  unfold newExpiry; split <;> rfl
+@[simp] theorem newExpiry_users (s : State) (n : NoteId) (k : DK) : (newExpiry s n k).users = s.users := by
+  unfold newExpiry; split <;> rfl
+@[simp] theorem newExpiry_freeing (s : State) (n : NoteId) (k : DK) : (newExpiry s n k).freeing = s.freeing := by
+  unfold newExpiry; split <;> rfl
+@[simp] theorem newExpiry_published (s : State) (n : NoteId) (k : DK) : (newExpiry s n k).published = s.published := by
+  unfold newExpiry; split <;> rfl
+@[simp] theorem newExpiry_notifyCalled (s : State) (n : NoteId) (k : DK) : (newExpiry s n k).notifyCalled = s.notifyCalled := by
+  unfold newExpiry; split <;> rfl
+@[simp] theorem newExpiry_ownDl (s : State) (n : NoteId) (k : DK) : (newExpiry s n k).ownDl = s.ownDl := by
+  unfold newExpiry; split <;> rfl
+@[simp] theorem newExpiry_cparent (s : State) (n : NoteId) (k : DK) : (newExpiry s n k).cparent = s.cparent := by
+  unfold newExpiry; split <;> rfl
+@[simp] theorem newExpiry_ancEver (s : State) (n : NoteId) (k : DK) : (newExpiry s n k).ancEver = s.ancEver := by
+  unfold newExpiry; split <;> rfl
+@[simp] theorem newExpiry_pathMin (s : State) (n : NoteId) (k : DK) : (newExpiry s n k).pathMin = s.pathMin := by
+  unfold newExpiry; split <;> rfl
+@[simp] theorem newExpiry_after (s : State) (n : NoteId) (k : DK) : (newExpiry s n k).after = s.after := by
+  unfold newExpiry; split <;> rfl
+@[simp] theorem newExpiry_observed (s : State) (n : NoteId) (k : DK) : (newExpiry s n k).observed = s.observed := by
+  unfold newExpiry; split <;> rfl
+@[simp] theorem newExpiry_pc (s : State) (n : NoteId) (k : DK) : (newExpiry s n k).pc = s.pc := by
+  unfold newExpiry; split <;> rfl
+@[simp] theorem newExpiry_bornNotified (s : State) (n : NoteId) (k : DK) : (newExpiry s n k).bornNotified = s.bornNotified := by
+  unfold newExpiry; split <;> rfl
+@[simp] theorem newExpiry_f_parent (s : State) (n : NoteId) (k : DK) (j : NoteId) :
+    ((newExpiry s n k).notes j).parent = (s.notes j).parent := by
+  unfold newExpiry; split <;> simp
+@[simp] theorem newExpiry_f_children (s : State) (n : NoteId) (k : DK) (j : NoteId) :
+    ((newExpiry s n k).notes j).children = (s.notes j).children := by
+  unfold newExpiry; split <;> simp
+@[simp] theorem newExpiry_f_notified (s : State) (n : NoteId) (k : DK) (j : NoteId) :
+    ((newExpiry s n k).notes j).notified = (s.notes j).notified := by
+  unfold newExpiry; split <;> simp
+@[simp] theorem newExpiry_f_disconnecting (s : State) (n : NoteId) (k : DK) (j : NoteId) :
+    ((newExpiry s n k).notes j).disconnecting = (s.notes j).disconnecting := by
+  unfold newExpiry; split <;> simp
+@[simp] theorem newExpiry_f_waiters (s : State) (n : NoteId) (k : DK) (j : NoteId) :
+    ((newExpiry s n k).notes j).waiters = (s.notes j).waiters := by
+  unfold newExpiry; split <;> simp
+@[simp] theorem newExpiry_f_lockHolder (s : State) (n : NoteId) (k : DK) (j : NoteId) :
+    ((newExpiry s n k).notes j).lockHolder = (s.notes j).lockHolder := by
+  unfold newExpiry; split <;> simp
+@[simp] theorem newExpiry_f_allocated (s : State) (n : NoteId) (k : DK) (j : NoteId) :
+    ((newExpiry s n k).notes j).allocated = (s.notes j).allocated := by
+  unfold newExpiry; split <;> simp
+@[simp] theorem newExpiry_f_freed (s : State) (n : NoteId) (k : DK) (j : NoteId) :
+    ((newExpiry s n k).notes j).freed = (s.notes j).freed := by
+  unfold newExpiry; split <;> simp
+@[simp] theorem newExpiry_f_expiry (s : State) (n : NoteId) (k : DK) (j : NoteId) :
+    ((newExpiry s n k).notes j).expiry = newExpiryVal s n k j := by
+  unfold newExpiry newExpiryVal; split <;> simp
+@[simp] theorem afterDeadline_f_parent (s : State) (t : Tid) (n : NoteId) (nt : Dl) (k : DK) (j : NoteId) :
+    ((afterDeadline s t n nt k).notes j).parent = (s.notes j).parent := by
+  unfold afterDeadline; split <;> simp
+@[simp] theorem afterDeadline_f_children (s : State) (t : Tid) (n : NoteId) (nt : Dl) (k : DK) (j : NoteId) :
+    ((afterDeadline s t n nt k).notes j).children = (s.notes j).children := by
+  unfold afterDeadline; split <;> simp
+@[simp] theorem afterDeadline_f_notified (s : State) (t : Tid) (n : NoteId) (nt : Dl) (k : DK) (j : NoteId) :
+    ((afterDeadline s t n nt k).notes j).notified = (s.notes j).notified := by
+  unfold afterDeadline; split <;> simp
+@[simp] theorem afterDeadline_f_disconnecting (s : State) (t : Tid) (n : NoteId) (nt : Dl) (k : DK) (j : NoteId) :
+    ((afterDeadline s t n nt k).notes j).disconnecting = (s.notes j).disconnecting := by
+  unfold afterDeadline; split <;> simp
+@[simp] theorem afterDeadline_f_waiters (s : State) (t : Tid) (n : NoteId) (nt : Dl) (k : DK) (j : NoteId) :
+    ((afterDeadline s t n nt k).notes j).waiters = (s.notes j).waiters := by
+  unfold afterDeadline; split <;> simp
+@[simp] theorem afterDeadline_f_lockHolder (s : State) (t : Tid) (n : NoteId) (nt : Dl) (k : DK) (j : NoteId) :
+    ((afterDeadline s t n nt k).notes j).lockHolder = (s.notes j).lockHolder := by
+  unfold afterDeadline; split <;> simp
+@[simp] theorem afterDeadline_f_allocated (s : State) (t : Tid) (n : NoteId) (nt : Dl) (k : DK) (j : NoteId) :
+    ((afterDeadline s t n nt k).notes j).allocated = (s.notes j).allocated := by
+  unfold afterDeadline; split <;> simp
+@[simp] theorem afterDeadline_f_freed (s : State) (t : Tid) (n : NoteId) (nt : Dl) (k : DK) (j : NoteId) :
+    ((afterDeadline s t n nt k).notes j).freed = (s.notes j).freed := by
+  unfold afterDeadline; split <;> simp
+@[simp] theorem afterDeadline_f_expiry (s : State) (t : Tid) (n : NoteId) (nt : Dl) (k : DK) (j : NoteId) :
+    ((afterDeadline s t n nt k).notes j).expiry = newExpiryVal s n k j := by
+  unfold afterDeadline; split <;> simp
+/-- Outside `nsync_note_new` with a parent the notes are left alone. -/
+theorem afterDeadline_notes_of (s : State) (t : Tid) (n : NoteId) (nt : Dl) {k : DK}
+    (h : ∀ p dl, k ≠ .newSelf (some p) dl) : (afterDeadline s t n nt k).notes = s.notes := by
+  have e : newExpiry s n k = s := by
+    unfold newExpiry
+    split
+    · exact absurd rfl (h _ _)
+    · rfl
+  unfold afterDeadline
+  rw [e]
+  split <;> rfl
 @[simp] theorem afterDeadline_recs (s : State) (t : Tid) (n : NoteId) (nt : Dl) (k : DK) : (afterDeadline s t n nt k).recs = s.recs := by
-  unfold afterDeadline; split <;> rfl
+  unfold afterDeadline; split <;> simp
 @[simp] theorem afterDeadline_now (s : State) (t : Tid) (n : NoteId) (nt : Dl) (k : DK) : (afterDeadline s t n nt k).now = s.now := by
-  unfold afterDeadline; split <;> rfl
+  unfold afterDeadline; split <;> simp
 @[simp] theorem afterDeadline_users (s : State) (t : Tid) (n : NoteId) (nt : Dl) (k : DK) : (afterDeadline s t n nt k).users = s.users := by
-  unfold afterDeadline; split <;> rfl
+  unfold afterDeadline; split <;> simp
 @[simp] theorem afterDeadline_freeing (s : State) (t : Tid) (n : NoteId) (nt : Dl) (k : DK) : (afterDeadline s t n nt k).freeing = s.freeing := by
-  unfold afterDeadline; split <;> rfl
+  unfold afterDeadline; split <;> simp
 @[simp] theorem afterDeadline_published (s : State) (t : Tid) (n : NoteId) (nt : Dl) (k : DK) : (afterDeadline s t n nt k).published = s.published := by
-  unfold afterDeadline; split <;> rfl
+  unfold afterDeadline; split <;> simp
 @[simp] theorem afterDeadline_notifyCalled (s : State) (t : Tid) (n : NoteId) (nt : Dl) (k : DK) : (afterDeadline s t n nt k).notifyCalled = s.notifyCalled := by
-  unfold afterDeadline; split <;> rfl
+  unfold afterDeadline; split <;> simp
 @[simp] theorem afterDeadline_ownDl (s : State) (t : Tid) (n : NoteId) (nt : Dl) (k : DK) : (afterDeadline s t n nt k).ownDl = s.ownDl := by
-  unfold afterDeadline; split <;> rfl
+  unfold afterDeadline; split <;> simp
+@[simp] theorem afterDeadline_cparent (s : State) (t : Tid) (n : NoteId) (nt : Dl) (k : DK) : (afterDeadline s t n nt k).cparent = s.cparent := by
+  unfold afterDeadline; split <;> simp
 @[simp] theorem afterDeadline_ancEver (s : State) (t : Tid) (n : NoteId) (nt : Dl) (k : DK) : (afterDeadline s t n nt k).ancEver = s.ancEver := by
-  unfold afterDeadline; split <;> rfl
+  unfold afterDeadline; split <;> simp
 @[simp] theorem afterDeadline_pathMin (s : State) (t : Tid) (n : NoteId) (nt : Dl) (k : DK) : (afterDeadline s t n nt k).pathMin = s.pathMin := by
-  unfold afterDeadline; split <;> rfl
+  unfold afterDeadline; split <;> simp
 @[simp] theorem afterDeadline_after (s : State) (t : Tid) (n : NoteId) (nt : Dl) (k : DK) : (afterDeadline s t n nt k).after = s.after := by
-  unfold afterDeadline; split <;> rfl
+  unfold afterDeadline; split <;> simp
 @[simp] theorem afterDeadline_observed (s : State) (t : Tid) (n : NoteId) (nt : Dl) (k : DK) : (afterDeadline s t n nt k).observed = s.observed := by
-  unfold afterDeadline; split <;> rfl
+  unfold afterDeadline; split <;> simp
 @[simp] theorem afterDeadline_pc (s : State) (t : Tid) (n : NoteId) (nt : Dl) (k : DK) :
     (afterDeadline s t n nt k).pc = upd s.pc t (afterDeadlinePc n nt k) := by
-  unfold afterDeadline; split <;> rfl
+  unfold afterDeadline; split <;> simp
 @[simp] theorem afterDeadline_bornNotified (s : State) (t : Tid) (n : NoteId) (nt : Dl) (k : DK) : (afterDeadline s t n nt k).bornNotified =
     (if bornNow nt k then upd s.bornNotified n true else s.bornNotified) := by
-  unfold afterDeadline; split <;> rfl
+  unfold afterDeadline; split <;> simp [*]
 @[simp] theorem leave_notes (s : State) (t : Tid) (n : NoteId) : (s.leave t n).notes = s.notes := rfl
 @[simp] theorem leave_recs (s : State) (t : Tid) (n : NoteId) : (s.leave t n).recs = s.recs := rfl
 @[simp] theorem leave_now (s : State) (t : Tid) (n : NoteId) : (s.leave t n).now = s.now := rfl
@@ -791,6 +935,7 @@ theorem upd_ne {β : Type} (f : Nat → β) {a x : Nat} (b : β) (h : x ≠ a) :
 @[simp] theorem leave_published (s : State) (t : Tid) (n : NoteId) : (s.leave t n).published = s.published := rfl
 @[simp] theorem leave_notifyCalled (s : State) (t : Tid) (n : NoteId) : (s.leave t n).notifyCalled = s.notifyCalled := rfl
 @[simp] theorem leave_ownDl (s : State) (t : Tid) (n : NoteId) : (s.leave t n).ownDl = s.ownDl := rfl
+@[simp] theorem leave_cparent (s : State) (t : Tid) (n : NoteId) : (s.leave t n).cparent = s.cparent := rfl
 @[simp] theorem leave_ancEver (s : State) (t : Tid) (n : NoteId) : (s.leave t n).ancEver = s.ancEver := rfl
 @[simp] theorem leave_pathMin (s : State) (t : Tid) (n : NoteId) : (s.leave t n).pathMin = s.pathMin := rfl
 @[simp] theorem leave_bornNotified (s : State) (t : Tid) (n : NoteId) : (s.leave t n).bornNotified = s.bornNotified := rfl
@@ -809,8 +954,54 @@ def NK.bornNow : NK → Bool
   | .ofApi => false
   | .ofDeadline k => Note.bornNow (some 0) k
 
-@[simp] theorem afterNotify_notes (s : State) (t : Tid) (n : NoteId) (k : NK) : (afterNotify s t n k).notes = s.notes := by
+@[simp] theorem afterNotify_f_parent (s : State) (t : Tid) (n : NoteId) (k : NK) (j : NoteId) :
+    ((afterNotify s t n k).notes j).parent = (s.notes j).parent := by
   cases k <;> simp [afterNotify]
+@[simp] theorem afterNotify_f_children (s : State) (t : Tid) (n : NoteId) (k : NK) (j : NoteId) :
+    ((afterNotify s t n k).notes j).children = (s.notes j).children := by
+  cases k <;> simp [afterNotify]
+@[simp] theorem afterNotify_f_notified (s : State) (t : Tid) (n : NoteId) (k : NK) (j : NoteId) :
+    ((afterNotify s t n k).notes j).notified = (s.notes j).notified := by
+  cases k <;> simp [afterNotify]
+@[simp] theorem afterNotify_f_disconnecting (s : State) (t : Tid) (n : NoteId) (k : NK) (j : NoteId) :
+    ((afterNotify s t n k).notes j).disconnecting = (s.notes j).disconnecting := by
+  cases k <;> simp [afterNotify]
+@[simp] theorem afterNotify_f_waiters (s : State) (t : Tid) (n : NoteId) (k : NK) (j : NoteId) :
+    ((afterNotify s t n k).notes j).waiters = (s.notes j).waiters := by
+  cases k <;> simp [afterNotify]
+@[simp] theorem afterNotify_f_lockHolder (s : State) (t : Tid) (n : NoteId) (k : NK) (j : NoteId) :
+    ((afterNotify s t n k).notes j).lockHolder = (s.notes j).lockHolder := by
+  cases k <;> simp [afterNotify]
+@[simp] theorem afterNotify_f_allocated (s : State) (t : Tid) (n : NoteId) (k : NK) (j : NoteId) :
+    ((afterNotify s t n k).notes j).allocated = (s.notes j).allocated := by
+  cases k <;> simp [afterNotify]
+@[simp] theorem afterNotify_f_freed (s : State) (t : Tid) (n : NoteId) (k : NK) (j : NoteId) :
+    ((afterNotify s t n k).notes j).freed = (s.notes j).freed := by
+  cases k <;> simp [afterNotify]
+/-- The value of `expiry` after `notify (n)` has returned to its caller. -/
+def NK.expiryVal (s : State) (n : NoteId) (k : NK) (j : NoteId) : Dl :=
+  match k with
+  | .ofApi => (s.notes j).expiry
+  | .ofDeadline dk => newExpiryVal s n dk j
+@[simp] theorem NK.expiryVal_ofApi (s : State) (n j : NoteId) :
+    NK.expiryVal s n .ofApi j = (s.notes j).expiry := rfl
+@[simp] theorem NK.expiryVal_ofDeadline (s : State) (n j : NoteId) (dk : DK) :
+    NK.expiryVal s n (.ofDeadline dk) j = newExpiryVal s n dk j := rfl
+theorem NK.expiryVal_ne (s : State) {n j : NoteId} (k : NK) (h : j ≠ n) :
+    NK.expiryVal s n k j = (s.notes j).expiry := by
+  cases k
+  · rfl
+  · exact newExpiryVal_ne s _ h
+@[simp] theorem afterNotify_f_expiry (s : State) (t : Tid) (n : NoteId) (k : NK) (j : NoteId) :
+    ((afterNotify s t n k).notes j).expiry = NK.expiryVal s n k j := by
+  cases k <;> simp [afterNotify]
+theorem afterNotify_notes_of (s : State) (t : Tid) (n : NoteId) {k : NK}
+    (h : ∀ p dl, k ≠ .ofDeadline (.newSelf (some p) dl)) : (afterNotify s t n k).notes = s.notes := by
+  cases k with
+  | ofApi => simp [afterNotify]
+  | ofDeadline dk =>
+    simp only [afterNotify]
+    exact afterDeadline_notes_of s t n _ (fun p dl e => h p dl (by rw [e]))
 @[simp] theorem afterNotify_recs (s : State) (t : Tid) (n : NoteId) (k : NK) : (afterNotify s t n k).recs = s.recs := by
   cases k <;> simp [afterNotify]
 @[simp] theorem afterNotify_now (s : State) (t : Tid) (n : NoteId) (k : NK) : (afterNotify s t n k).now = s.now := by
@@ -824,6 +1015,8 @@ def NK.bornNow : NK → Bool
 @[simp] theorem afterNotify_notifyCalled (s : State) (t : Tid) (n : NoteId) (k : NK) : (afterNotify s t n k).notifyCalled = s.notifyCalled := by
   cases k <;> simp [afterNotify]
 @[simp] theorem afterNotify_ownDl (s : State) (t : Tid) (n : NoteId) (k : NK) : (afterNotify s t n k).ownDl = s.ownDl := by
+  cases k <;> simp [afterNotify]
+@[simp] theorem afterNotify_cparent (s : State) (t : Tid) (n : NoteId) (k : NK) : (afterNotify s t n k).cparent = s.cparent := by
   cases k <;> simp [afterNotify]
 @[simp] theorem afterNotify_ancEver (s : State) (t : Tid) (n : NoteId) (k : NK) : (afterNotify s t n k).ancEver = s.ancEver := by
   cases k <;> simp [afterNotify]
@@ -854,6 +1047,8 @@ def NK.bornNow : NK → Bool
 @[simp] theorem childReturn_notifyCalled (s : State) (t : Tid) (f : Frame) (rest : List Frame) (top : Top) : (childReturn s t f rest top).notifyCalled = s.notifyCalled := by
   unfold childReturn; split <;> rfl
 @[simp] theorem childReturn_ownDl (s : State) (t : Tid) (f : Frame) (rest : List Frame) (top : Top) : (childReturn s t f rest top).ownDl = s.ownDl := by
+  unfold childReturn; split <;> rfl
+@[simp] theorem childReturn_cparent (s : State) (t : Tid) (f : Frame) (rest : List Frame) (top : Top) : (childReturn s t f rest top).cparent = s.cparent := by
   unfold childReturn; split <;> rfl
 @[simp] theorem childReturn_ancEver (s : State) (t : Tid) (f : Frame) (rest : List Frame) (top : Top) : (childReturn s t f rest top).ancEver = s.ancEver := by
   unfold childReturn; split <;> rfl
@@ -916,6 +1111,8 @@ def childWakeNextPc (s : State) (f : Frame) (rest : List Frame) (top : Top) : PC
   unfold childWakeNext; split <;> rfl
 @[simp] theorem childWakeNext_ownDl (s : State) (t : Tid) (f : Frame) (rest : List Frame) (top : Top) : (childWakeNext s t f rest top).ownDl = s.ownDl := by
   unfold childWakeNext; split <;> rfl
+@[simp] theorem childWakeNext_cparent (s : State) (t : Tid) (f : Frame) (rest : List Frame) (top : Top) : (childWakeNext s t f rest top).cparent = s.cparent := by
+  unfold childWakeNext; split <;> rfl
 @[simp] theorem childWakeNext_ancEver (s : State) (t : Tid) (f : Frame) (rest : List Frame) (top : Top) : (childWakeNext s t f rest top).ancEver = s.ancEver := by
   unfold childWakeNext; split <;> rfl
 @[simp] theorem childWakeNext_pathMin (s : State) (t : Tid) (f : Frame) (rest : List Frame) (top : Top) : (childWakeNext s t f rest top).pathMin = s.pathMin := by
@@ -965,6 +1162,7 @@ def childWakeNextPc (s : State) (f : Frame) (rest : List Frame) (top : Top) : PC
 @[simp] theorem freeLoopStart_published (s : State) (t : Tid) (n : NoteId) (par : Option NoteId) : (freeLoopStart s t n par).published = s.published := rfl
 @[simp] theorem freeLoopStart_notifyCalled (s : State) (t : Tid) (n : NoteId) (par : Option NoteId) : (freeLoopStart s t n par).notifyCalled = s.notifyCalled := rfl
 @[simp] theorem freeLoopStart_ownDl (s : State) (t : Tid) (n : NoteId) (par : Option NoteId) : (freeLoopStart s t n par).ownDl = s.ownDl := rfl
+@[simp] theorem freeLoopStart_cparent (s : State) (t : Tid) (n : NoteId) (par : Option NoteId) : (freeLoopStart s t n par).cparent = s.cparent := rfl
 @[simp] theorem freeLoopStart_ancEver (s : State) (t : Tid) (n : NoteId) (par : Option NoteId) : (freeLoopStart s t n par).ancEver = s.ancEver := rfl
 @[simp] theorem freeLoopStart_pathMin (s : State) (t : Tid) (n : NoteId) (par : Option NoteId) : (freeLoopStart s t n par).pathMin = s.pathMin := rfl
 @[simp] theorem freeLoopStart_bornNotified (s : State) (t : Tid) (n : NoteId) (par : Option NoteId) : (freeLoopStart s t n par).bornNotified = s.bornNotified := rfl
@@ -980,6 +1178,7 @@ def childWakeNextPc (s : State) (f : Frame) (rest : List Frame) (top : Top) : PC
 @[simp] theorem enterChild_published (s : State) (t : Tid) (n : NoteId) (par : Option NoteId) (k : NK) : (enterChild s t n par k).published = s.published := rfl
 @[simp] theorem enterChild_notifyCalled (s : State) (t : Tid) (n : NoteId) (par : Option NoteId) (k : NK) : (enterChild s t n par k).notifyCalled = s.notifyCalled := rfl
 @[simp] theorem enterChild_ownDl (s : State) (t : Tid) (n : NoteId) (par : Option NoteId) (k : NK) : (enterChild s t n par k).ownDl = s.ownDl := rfl
+@[simp] theorem enterChild_cparent (s : State) (t : Tid) (n : NoteId) (par : Option NoteId) (k : NK) : (enterChild s t n par k).cparent = s.cparent := rfl
 @[simp] theorem enterChild_ancEver (s : State) (t : Tid) (n : NoteId) (par : Option NoteId) (k : NK) : (enterChild s t n par k).ancEver = s.ancEver := rfl
 @[simp] theorem enterChild_pathMin (s : State) (t : Tid) (n : NoteId) (par : Option NoteId) (k : NK) : (enterChild s t n par k).pathMin = s.pathMin := rfl
 @[simp] theorem enterChild_bornNotified (s : State) (t : Tid) (n : NoteId) (par : Option NoteId) (k : NK) : (enterChild s t n par k).bornNotified = s.bornNotified := rfl
